@@ -17,7 +17,8 @@ ID = 'C10'
 LEVEL = 'exploration'
 TECHNIQUE = ('exhaustive enumeration of operator x pool^2 (pool^3 for '
              'transitivity) + Hypothesis-sampled operands, against an '
-             'independent reference model of Excel operator semantics')
+             'independent reference model of Excel operator semantics'
+             '; the operator table repeated with numpy-typed operands; order-independence probe (python-equal argument aliases in three evaluation orders, fresh interpreter each)')
 RULE = ('every operator in {+ - * / ^ & = <> < <= > >= unary- %} is applied '
         'to every ordered pair of a mixed-type pool (exhaustive) with '
         'operands given as cell references, a sample as literals and through '
